@@ -166,18 +166,25 @@ def _inc_options(game):
 
 @st.composite
 def _step(draw, info, big, pool, last):
-    """last: (map index, include_types) of the previous step when that was a stack step of one chart, else None."""
+    """last: (map index, include_types) of the previous step when that was a stack step of one chart, "ms" after a
+    mapset-level step, else None."""
     game = info["game"]
     kinds = ["col", "col", "loc", "loc", "loc", "loc", "list", "list"] + (["ms", "ms"] if info["mapset"] else [])
     k = draw(st.sampled_from(kinds))
     nmaps = len(info["maps"])
+    ms_cont = last == "ms" and draw(st.booleans())  # go on with the mapset stacker of the previous step
+    if ms_cont:
+        k = "ms"
+        last = None
+    elif last == "ms":
+        last = None
     if k == "ms":
         cols = sorted({c for m in info["maps"] for l in m.values() for c in l} - NON_NUMERIC)
         base = [c for c in cols if _attr_ok(game, c, mapset=True)]
         extra = [c for c in cols if c not in base]
         prop = draw(st.sampled_from(extra if extra and draw(st.integers(0, 2)) == 0 else base))
         op = draw(st.sampled_from(["+", "-", "*", "/"]))
-        return dict(k="ms", keep=draw(st.booleans()), prop=prop, via="attr" if _attr_ok(game, prop, True) else "item", op=op, v=draw(_value_st(op, pool)))
+        return dict(k="ms", keep=ms_cont or draw(st.booleans()), prop=prop, via="attr" if _attr_ok(game, prop, True) else "item", op=op, v=draw(_value_st(op, pool)))
     mi = draw(st.integers(0, nmaps - 1))
     lists = info["maps"][mi]
     if k == "list":
@@ -251,7 +258,7 @@ def case_st(draw, tier):
     last = None
     for _ in range(n):
         s = draw(_step(info, big, pool, last))
-        last = (s["map"], s["inc"]) if s["k"] in ("col", "loc") else None
+        last = (s["map"], s["inc"]) if s["k"] in ("col", "loc") else ("ms" if s["k"] == "ms" else None)
         steps.append(s)
     return dict(chart=chart, steps=steps)
 
